@@ -4,9 +4,9 @@ import random
 from vlib import *  # noqa
 from vlib import _collect_prints as vlib_collect
 
-CLAUSES = {"monitor_skipped", "signal_ignored", "sibling_not_run", "monitor_dead", "co_error", "syscall_preempted", "result_changed",
+CLAUSES = {"monitor_skipped", "never_signalled", "signal_ignored", "sibling_not_run", "monitor_dead", "co_error", "syscall_preempted", "result_changed",
            "unfinished", "abort", "hang", "panic"}
-TIMING = {"monitor_dead"}
+TIMING = {"monitor_dead", "never_signalled"}
 MIG_CLAUSES = {"foreign_current", "stale_current", "order", "unfinished", "abort", "hang", "panic"}
 
 
@@ -81,6 +81,8 @@ def run(pid, tier):
         for threads in (1, 2, 4, 8):
             for busy in ("running", "syscall"):
                 scs.append({"threads": threads, "shorts": 0, "busy": busy, "stress": False, "src": "grid"})
+        # the busy coroutine is stolen by another scheduling thread after its first slice and must be preempted there too
+        scs.append({"threads": 2, "shorts": 0, "busy": "running", "steal": True, "busy_ms": 90, "stress": False, "src": "stolen-after-first-slice"})
         # a late SIGURG while the coroutine is already inside its system call (delivered by the driver)
         for threads in (1, 4):
             scs.append({"threads": threads, "shorts": 0, "busy": "syscall", "sig_self": True, "stress": False, "src": "late-signal-in-syscall"})
